@@ -686,6 +686,10 @@ class AmpBox(Dict[bytes, bytes]):
                 raise TypeError("Unicode key not allowed: %r" % k)
             if type(v) == str:
                 raise TypeError(f"Unicode value for key {k!r} not allowed: {v!r}")
+            if len(k) == 0:
+                # The empty string terminates a box on the wire; an empty key
+                # would split this box in two on the receiving side.
+                raise ValueError(f"Empty key not allowed (value: {v!r})")
             if len(k) > MAX_KEY_LENGTH:
                 raise TooLong(True, True, k, None)
             if len(v) > MAX_VALUE_LENGTH:
